@@ -1,7 +1,7 @@
 (* Property C01 - only statements, each closed by [exact].  (partial: see manifest.d/C01.json) *)
 From Coq Require Import ZArith List Bool String.
 Import ListNotations.
-Require Import UV.C01.Model UV.Gen.Stubs UV.C01.MachineProofs UV.C01.StubTheorems UV.C01.ArchCtxProofs UV.C01.Proofs UV.C01.ShadowProofs UV.C01.ShadowRecover UV.C01.LifeProofs UV.C01.StopKinds.
+Require Import UV.C01.Model UV.Gen.Stubs UV.C01.MachineProofs UV.C01.StubTheorems UV.C01.ArchCtxProofs UV.C01.Proofs UV.C01.ShadowProofs UV.C01.ShadowRecover UV.C01.LifeProofs UV.C01.StopKinds UV.C01.Fds UV.C01.FdsProofs.
 Local Open Scope Z_scope.
 
 (* ---- (i) the assembly stubs, as generated from arch/x86_64/*.S of the current tree ----
@@ -291,6 +291,38 @@ Theorem C01_estimate_return_is_native : forall c d s,
                   (forall l, (l < d)%nat -> mem s' l = mem s l).
 Proof. exact estimate_return_is_native. Qed.
 Print Assumptions C01_estimate_return_is_native.
+
+(* ---- process-wide resources: the descriptor table (Fds.v) ----
+   The kernel's table under uftrace is the union of the program's descriptors p and libmcount's own set L (the pipe to
+   uftrace, the --logfile descriptor, the ELF files of the debug info: all moved to the top of the table, at or above H,
+   since fix C01-10); libmcount's close() wrapper swallows a close of the descriptors in prot, and prot is a subset of L.
+   As long as the program stays below H - every descriptor it names and every descriptor the native run hands out
+   [stays_below] - every close / open / dup / dup2 / fcntl(F_GETFD) it performs has the native result (return value, EBADF,
+   lowest-free rule) and its own table evolves as natively *)
+Theorem C01_own_descriptors_native : forall (N H : nat) (L prot : list nat),
+  (forall l, In l L -> (H <= l)%nat) -> (forall x, In x prot -> In x L) ->
+  forall (ops : list fop) (p k : table),
+  teq k (union p L) -> stays_below N H p ops = true ->
+  snd (trun N prot k ops) = snd (krun N p ops) /\
+  teq (fst (trun N prot k ops)) (union (fst (krun N p ops)) L).
+Proof. exact own_descriptors_native. Qed.
+Print Assumptions C01_own_descriptors_native.
+
+(* the close() wrapper also protecting fileno(logfp) - the program's own descriptor 2 when no --logfile is given (a seeded
+   regression): close(2); open() gets 3 instead of 2 and a second close(2) returns 0 instead of EBADF *)
+Theorem C01_close_protects_stderr_refuted :
+  snd (krun 1024 std [FClose 2; FOpen; FClose 2; FClose 2]) = [ROk 0; ROk 2; ROk 0; RBadf] /\
+  snd (trun 1024 [1000; 2] (union std [1000]) [FClose 2; FOpen; FClose 2; FClose 2])%nat = [ROk 0; ROk 3; ROk 0; ROk 0] /\
+  snd (trun 1024 [1000] (union std [1000]) [FClose 2; FOpen; FClose 2; FClose 2])%nat = [ROk 0; ROk 2; ROk 0; RBadf].
+Proof. exact close_protects_stderr_refuted. Qed.
+Print Assumptions C01_close_protects_stderr_refuted.
+
+(* the code as found: the pipe took the lowest free descriptor (3), so the program's first open() returned 4 *)
+Theorem C01_low_pipe_legacy_refuted :
+  snd (krun 1024 std [FOpen; FDup 0]) = [ROk 3; ROk 4] /\
+  snd (trun 1024 [3] (union std [3]) [FOpen; FDup 0])%nat = [ROk 4; ROk 5].
+Proof. exact low_pipe_legacy_refuted. Qed.
+Print Assumptions C01_low_pipe_legacy_refuted.
 
 (* ---- (iii) errno ---- *)
 Theorem C01_errno_preserved : forall (A : Type) (inner : Z -> A * Z) (e : Z),
